@@ -1,62 +1,168 @@
 import ClaripyProofs.Lemmas.Solver.CachelessAdd
 /-!
-SolverCacheless, whole histories: one frontend (not tracking, `reuse_z3_solver` off), any sequence of
-add / satisfiable / eval / min / max / solution / is_true / is_false / simplify / downsize.
-Every answer the MODEL gives is one the property statement (`Judge`) allows for the constraints the user has added so
-far — over the complete mixin stack composed from the generated MRO, for every oracle that is exact and never gives up.
+SolverCacheless, whole histories over a TREE of branched solvers (not tracking, `reuse_z3_solver` off): any sequence of
+add / satisfiable / eval / min / max / solution / is_true / is_false / simplify / downsize / branch on any of the solvers
+alive.  Every answer the MODEL gives is one the property statement (`Judge`) allows for the constraints the user has
+added to THAT solver (inherited at branch) — over the complete mixin stack composed from the generated MRO, with the
+solvers of the tree sharing Z3 objects the way `_copy` makes them.
 -/
 namespace Claripy.Solver
 
-/-- the deduplication invariant as the property carried through the queries -/
-def DG (R : Con → Prop) (U : List Con) : List Con → List Nat → List Nat → Prop :=
-  fun cons hashes wo => (∀ c ∈ cons, R c) ∧
-    ∀ c, R c → (c.id ∈ hashes ∨ c.id ∈ wo) → ∀ a, holdsAll U a = true → c.sem a = true
+/-- full invariant of one SolverCacheless frontend whose user has added `U` -/
+def FInv (R : Con → Prop) (U : List Con) (s : St) : Prop := CLInv0 U s ∧ DInv R U s
 
-/-- full invariant of a SolverCacheless frontend whose user has added `U` -/
-abbrev FInv (R : Con → Prop) (U : List Con) (s : St) : Prop := CLInv (DG R U) U s
+/-- the starting point recorded, so that the query step can be read off afterwards -/
+theorem CLInv0.mark {U : List Con} {s : St} (h : CLInv0 U s) : CLInv (· = s) U s :=
+  ⟨h.core, h.equiv, ⟨s, rfl, QStep.refl s⟩⟩
 
-theorem FInv.split {R : Con → Prop} {U : List Con} {s : St} (h : FInv R U s) : CLInv0 U s ∧ DInv R U s :=
-  ⟨⟨h.core, h.equiv, trivial⟩, ⟨h.ghost.1, h.ghost.2⟩⟩
+theorem CLInv.unmark {U : List Con} {s s' : St} (h : CLInv (· = s) U s') : CLInv0 U s' ∧ QStep s s' := by
+  obtain ⟨s0, rfl, hq⟩ := h.ghost
+  exact ⟨⟨h.core, h.equiv, ⟨s', trivial, QStep.refl s'⟩⟩, hq⟩
 
-theorem FInv.join {R : Con → Prop} {U : List Con} {s : St} (h : CLInv0 U s) (hd : DInv R U s) : FInv R U s :=
-  ⟨h.core, h.equiv, ⟨hd.consR, hd.seen⟩⟩
+theorem DInv.qstep {R : Con → Prop} {U : List Con} {s s' : St} (hd : DInv R U s) (hq : QStep s s') : DInv R U s' := by
+  obtain ⟨sol, ta, hfe⟩ := hq.fe
+  exact ⟨by rw [hfe]; exact hd.consR, by rw [hfe]; exact hd.seen⟩
+
+/-- what any call on a frontend does to the Z3 objects and to its own reference, as far as the OTHER frontends care -/
+structure WStep (s s' : St) : Prop where
+  grow : s.objs.length ≤ s'.objs.length
+  solver3 : s'.fe.solver = s.fe.solver ∨ s'.fe.solver = none ∨ ∃ r, s'.fe.solver = some r ∧ s.objs.length ≤ r
+  foreign : ∀ i, i < s.objs.length → (s.fe.solver = some i → s.fe.finalized = true) →
+    (objAt s' i).frames = (objAt s i).frames
+  reuse : s'.reuse = s.reuse
+  fin : s.fe.finalized = true → s'.fe.finalized = true
+
+theorem QStep.toW {s s' : St} (h : QStep s s') : WStep s s' :=
+  ⟨h.grow, h.solverNew.elim Or.inl (fun h => Or.inr (Or.inr h)), h.foreign, h.reuse, fun hf => by rw [h.finalized]; exact hf⟩
+
+theorem MStep.toW {s s' : St} (h : MStep s s') : WStep s s' :=
+  ⟨by rw [h.objs]; exact Nat.le_refl _, h.solver.elim Or.inl (fun h => Or.inr (Or.inl h)),
+   fun i _ _ => by simp only [objAt, h.objs], h.reuse, h.fin⟩
+
+/-- the invariant of a frontend only looks at its record and at the frames of the Z3 object it refers to -/
+theorem FInv.transfer {R : Con → Prop} {U : List Con} {s s' : St} (h : FInv R U s)
+    (hcons : s'.fe.constraints = s.fe.constraints) (htoadd : s'.fe.toAdd = s.fe.toAdd) (hsol : s'.fe.solver = s.fe.solver)
+    (htrack : s'.fe.track = s.fe.track) (hhash : s'.fe.hashes = s.fe.hashes) (hwo : s'.fe.woAnnot = s.fe.woAnnot)
+    (hre : s'.reuse = s.reuse)
+    (hobj : ∀ r, s.fe.solver = some r → r < s'.objs.length ∧ (objAt s' r).frames = (objAt s r).frames) : FInv R U s' := by
+  obtain ⟨hc, hd⟩ := h
+  refine ⟨⟨⟨?_, ?_, ?_, ?_⟩, ?_, ⟨s', trivial, QStep.refl s'⟩⟩, ⟨?_, ?_⟩⟩
+  · rw [hcons, htoadd]; exact hc.core.toAdd_sub
+  · intro r hr
+    rw [hsol] at hr
+    obtain ⟨_, ⟨f, hf⟩, hsem⟩ := hc.core.obj r hr
+    obtain ⟨hlt, hfr⟩ := hobj r hr
+    refine ⟨hlt, ⟨f, by rw [hfr, hf]⟩, fun a => ?_⟩
+    have has : (objAt s' r).asserted = (objAt s r).asserted := by simp only [Z3Obj.asserted, hfr]
+    rw [has, htoadd, hcons]
+    exact hsem a
+  · rw [hre]; exact hc.core.noReuse
+  · rw [htrack]; exact hc.core.untracked
+  · rw [hcons]; exact hc.equiv
+  · rw [hcons]; exact hd.consR
+  · rw [hhash, hwo]; exact hd.seen
 
 /-! ### world and state -/
 
-def stOf (w : World) : St :=
-  { fe := w.fes.getD 0 {}, objs := w.objs, reuse := w.reuse, shared := w.shared, tick := w.tick, qlog := w.qlog }
+def stOfI (w : World) (i : Nat) : St :=
+  { fe := w.fes.getD i {}, objs := w.objs, reuse := w.reuse, shared := w.shared, tick := w.tick, qlog := w.qlog }
 
-def wOf (w : World) (st' : St) : World :=
-  { w with fes := w.fes.set 0 st'.fe, objs := st'.objs, shared := st'.shared, tick := st'.tick, qlog := st'.qlog }
+def wOfI (w : World) (i : Nat) (st' : St) : World :=
+  { w with fes := w.fes.set i st'.fe, objs := st'.objs, shared := st'.shared, tick := st'.tick, qlog := st'.qlog }
 
-theorem runOn_eq {α : Type} (w : World) (m : M α) : runOn w 0 m = ((m (stOf w)).1, wOf w (m (stOf w)).2) := rfl
+theorem runOn_eq {α : Type} (w : World) (i : Nat) (m : M α) :
+    runOn w i m = ((m (stOfI w i)).1, wOfI w i (m (stOfI w i)).2) := rfl
 
-theorem stOf_wOf (w : World) (s' : St) (h : 0 < w.fes.length) (hr : s'.reuse = w.reuse) : stOf (wOf w s') = s' := by
+theorem getD_set_self {α : Type} (l : List α) (i : Nat) (x d : α) (h : i < l.length) : (l.set i x).getD i d = x := by
+  simp [List.getD, h]
+
+theorem getD_set_ne {α : Type} (l : List α) (i j : Nat) (x d : α) (h : i ≠ j) : (l.set i x).getD j d = l.getD j d := by
+  simp [List.getD, List.getElem?_set_ne h]
+
+theorem stOfI_wOfI_self (w : World) (i : Nat) (s' : St) (h : i < w.fes.length) (hr : s'.reuse = w.reuse) :
+    stOfI (wOfI w i s') i = s' := by
   cases s' with
   | mk fe objs reuse shared tick qlog =>
     simp only at hr
     subst hr
-    simp only [stOf, wOf, St.mk.injEq, and_true, true_and]
-    cases hf : w.fes with
-    | nil => rw [hf] at h; simp at h
-    | cons x xs => simp
+    simp only [stOfI, wOfI, St.mk.injEq, and_true]
+    exact getD_set_self _ _ _ _ h
 
-/-- invariant of the world: frontend 0 exists and satisfies the frontend invariant -/
-def WInv (R : Con → Prop) (U : List Con) (w : World) : Prop := 0 < w.fes.length ∧ FInv R U (stOf w)
+/-- invariant of the world: every frontend satisfies its invariant for ITS user's constraints; a Z3 object referred to by
+two frontends is referred to by finalized frontends only (so nobody asserts into it) -/
+structure TInv (R : Con → Prop) (Us : List (List Con)) (w : World) : Prop where
+  len : Us.length = w.fes.length
+  each : ∀ i, i < w.fes.length → FInv R (Us.getD i []) (stOfI w i)
+  share : ∀ i j r, i < w.fes.length → j < w.fes.length → i ≠ j →
+    (w.fes.getD i {}).solver = some r → (w.fes.getD j {}).solver = some r → (w.fes.getD i {}).finalized = true
 
-theorem winv_step {R : Con → Prop} {U U' : List Con} {w : World} {s' : St} (hw : WInv R U w) (h' : FInv R U' s') :
-    WInv R U' (wOf w s') := by
-  have hr : s'.reuse = w.reuse := by
-    have h1 := h'.core.noReuse
-    have h2 : w.reuse = false := hw.2.core.noReuse
-    rw [h1, h2]
-  refine ⟨by simp [wOf]; exact hw.1, ?_⟩
-  rw [stOf_wOf w s' hw.1 hr]
-  exact h'
+theorem TInv.solver_lt {R : Con → Prop} {Us : List (List Con)} {w : World} (hw : TInv R Us w) {j r : Nat}
+    (hj : j < w.fes.length) (hr : (w.fes.getD j {}).solver = some r) : r < w.objs.length :=
+  ((hw.each j hj).1.core.obj r hr).1
 
-theorem winv_init (R : Con → Prop) : WInv R [] (World.init false false) := by
-  refine ⟨by simp [World.init], ⟨⟨fun _ _ => rfl, fun r hr => by simp [stOf, World.init] at hr, rfl, rfl⟩, fun _ => rfl,
-    ⟨fun c hc => by simp [stOf, World.init] at hc, fun c _ hi => by simp [stOf, World.init] at hi⟩⟩⟩
+/-- a call on frontend `i` that is a `WStep` for it and re-establishes its invariant (for possibly more constraints) keeps
+the invariant of the world -/
+theorem tinv_step {R : Con → Prop} {Us : List (List Con)} {w : World} (hw : TInv R Us w) {i : Nat} (hi : i < w.fes.length)
+    {s' : St} {U' : List Con} (hws : WStep (stOfI w i) s') (hf : FInv R U' s') :
+    TInv R (Us.set i U') (wOfI w i s') := by
+  have hre : s'.reuse = w.reuse := hws.reuse
+  have hlen : (wOfI w i s').fes.length = w.fes.length := by simp [wOfI]
+  refine ⟨by simp [wOfI, hw.len], ?_, ?_⟩
+  · intro j hj
+    rw [hlen] at hj
+    by_cases hji : j = i
+    · subst hji
+      rw [stOfI_wOfI_self w j s' hi hre, getD_set_self _ _ _ _ (by rw [hw.len]; exact hi)]
+      exact hf
+    · rw [getD_set_ne _ _ _ _ _ (Ne.symm hji)]
+      have hfe : (stOfI (wOfI w i s') j).fe = (stOfI w j).fe := by
+        simp only [stOfI, wOfI]; exact getD_set_ne _ _ _ _ _ (Ne.symm hji)
+      refine (hw.each j hj).transfer (by rw [hfe]) (by rw [hfe]) (by rw [hfe]) (by rw [hfe]) (by rw [hfe]) (by rw [hfe]) rfl ?_
+      intro r hr
+      have hlt : r < w.objs.length := hw.solver_lt hj hr
+      refine ⟨Nat.lt_of_lt_of_le hlt hws.grow, ?_⟩
+      exact hws.foreign r hlt (fun hir => hw.share i j r hi hj (Ne.symm hji) hir hr)
+  · intro a b r ha hb hab hra hrb
+    rw [hlen] at ha hb
+    simp only [wOfI] at hra hrb ⊢
+    by_cases hai : a = i
+    · subst hai
+      have hbi : b ≠ a := Ne.symm hab
+      rw [getD_set_self _ _ _ _ ha] at hra ⊢
+      rw [getD_set_ne _ _ _ _ _ (Ne.symm hbi)] at hrb
+      have hlt : r < w.objs.length := hw.solver_lt hb hrb
+      rcases hws.solver3 with e | e | ⟨r', e, hge⟩
+      · exact hws.fin (hw.share a b r ha hb hab (e ▸ hra) hrb)
+      · rw [e] at hra; cases hra
+      · rw [e] at hra
+        have : r' = r := by simpa using hra
+        subst this
+        exact absurd hlt (Nat.not_lt.mpr hge)
+    · rw [getD_set_ne _ _ _ _ _ (Ne.symm hai)] at hra ⊢
+      by_cases hbi : b = i
+      · subst hbi
+        rw [getD_set_self _ _ _ _ hb] at hrb
+        have hlt : r < w.objs.length := hw.solver_lt ha hra
+        rcases hws.solver3 with e | e | ⟨r', e, hge⟩
+        · exact hw.share a b r ha hb hab hra (e ▸ hrb)
+        · rw [e] at hrb; cases hrb
+        · rw [e] at hrb
+          have : r' = r := by simpa using hrb
+          subst this
+          exact absurd hlt (Nat.not_lt.mpr hge)
+      · rw [getD_set_ne _ _ _ _ _ (Ne.symm hbi)] at hrb
+        exact hw.share a b r ha hb hab hra hrb
+
+theorem tinv_init (R : Con → Prop) : TInv R [[]] (World.init false false) := by
+  refine ⟨rfl, ?_, ?_⟩
+  · intro i hi
+    have : i = 0 := by simp [World.init] at hi; exact hi
+    subst this
+    exact ⟨⟨⟨fun _ _ => rfl, fun r hr => by simp [stOfI, World.init] at hr, rfl, rfl⟩, fun _ => rfl, ⟨_, trivial, QStep.refl _⟩⟩,
+           ⟨fun c hc => by simp [stOfI, World.init] at hc, fun c _ hi => by simp [stOfI, World.init] at hi⟩⟩
+  · intro i j r hi hj hij
+    simp [World.init] at hi hj
+    omega
 
 /-! ### calls in scope -/
 
@@ -70,19 +176,19 @@ def InScope (R : Con → Prop) : Op → Prop
   | .min e ex _ | .max e ex _ => ExpWf e ∧ ∀ c ∈ ex, ConWf c
   | .solution e v ex => v < 2 ^ e.bits ∧ ∀ c ∈ ex, ConWf c
   | .isTrue c ex | .isFalse c ex => ConWf c ∧ ∀ c ∈ ex, ConWf c
-  | .simplify | .downsize => True
+  | .simplify | .downsize | .branch => True
   | _ => False
 
-/-- the user's constraints after a call -/
+/-- the user's constraints of the solver called, after the call -/
 def usersAfter (U : List Con) : Op → List Con
   | .add new => U ++ new
   | _ => U
 
-theorem errOk_unsat {E : Env} (hN : NoGiveUp E) {cs : List Con} {err : Err} (h : ErrOk E cs err) :
-    err = .unsat ∧ ¬ Satisfiable cs := by
-  rcases h with h | h
-  · exact h
-  · exact (h.elim hN).elim
+/-- the constraint lists of all solvers after a call on solver `i` -/
+def usersAll (Us : List (List Con)) (i : Nat) : Op → List (List Con)
+  | .add new => Us.set i (Us.getD i [] ++ new)
+  | .branch => Us ++ [Us.getD i []]
+  | _ => Us
 
 theorem publicAdd_cacheless (E : Env) (cs : List Con) :
     publicAdd (clStage E 4) cs = clAdd E (clStage E 3) cs true := by
@@ -92,13 +198,6 @@ theorem publicAdd_cacheless (E : Env) (cs : List Con) :
   by_cases h : cs.isEmpty = true
   · simp [h]
   · simp [h]
-
-theorem runHist_cons {R : Con → Prop} (E : Env) (w : World) (U : List Con) (op : Op) (rest : List (Nat × Op))
-    (hop : InScope R op) :
-    runHist E .SolverCacheless w [U] ((0, op) :: rest) =
-      (usersAfter U op, op, (step E .SolverCacheless w 0 op).1) ::
-        runHist E .SolverCacheless (step E .SolverCacheless w 0 op).2 [usersAfter U op] rest := by
-  cases op <;> first | rfl | exact hop.elim
 
 /-- the call raised because the backend gave up (`ClaripyZ3Error` / solver `unknown`), and the oracle did say `unknown` -/
 def GaveUpOut (E : Env) (o : Out) : Prop := ∃ e, o = .err e ∧ IsGiveUp E e
@@ -110,162 +209,314 @@ theorem GaveUpOut.eq {E : Env} {o : Out} (h : GaveUpOut E o) : o = .err .giveUp 
 /-- allowed answer, or an honest give-up -/
 def JudgeOrGiveUp (E : Env) (cs : List Con) (op : Op) (o : Out) : Prop := Judge cs op o ∨ GaveUpOut E o
 
+/-- `Frontend.branch` of this class: `blank_copy` and `_copy` through all layers -/
+def branchM (E : Env) : M Frontend := do let fe ← M.getFe; (clStage E 4).copy ((clStage E 4).blankCopy fe {})
+
+theorem branchM_spec (E : Env) (s : St) :
+    ∃ c, branchM E s = (.ok c, { s with fe := { s.fe with finalized := true } }) ∧
+      c.constraints = s.fe.constraints ∧ c.toAdd = s.fe.toAdd ∧ c.solver = s.fe.solver ∧ c.track = s.fe.track ∧
+      c.hashes = s.fe.hashes ∧ c.woAnnot = s.fe.woAnnot ∧ c.finalized = true :=
+  ⟨_, rfl, rfl, rfl, rfl, rfl, rfl, rfl, rfl⟩
+
+theorem set_getD_self {α : Type} (l : List α) (i : Nat) (d : α) (h : i < l.length) : l.set i (l.getD i d) = l := by
+  apply List.ext_getElem
+  · simp
+  · intro n h1 h2
+    by_cases hn : i = n
+    · subst hn; simp [List.getD, h]
+    · simp [List.getElem_set_ne hn]
+
 section
 variable {E : Env} {R : Con → Prop} (hR : Reg R E) (hE : OracleExact E) (hS : SimpOn R E) (hT : CheapSound E)
 include hR hE hS hT
 
-/-- one call: the answer is allowed, the invariant holds afterwards -/
-theorem cl_step (w : World) (U : List Con) (hw : WInv R U w) (op : Op) (hop : InScope R op) :
-    JudgeOrGiveUp E (usersAfter U op) op (step E .SolverCacheless w 0 op).1 ∧
-    WInv R (usersAfter U op) (step E .SolverCacheless w 0 op).2 := by
+/-- a query-like or mutating call on solver `i` (everything but `branch`): the answer is allowed for THAT solver's
+constraints, the invariant of the whole world holds afterwards -/
+theorem cl_step_nb (w : World) (Us : List (List Con)) (hw : TInv R Us w) (i : Nat) (hi : i < w.fes.length)
+    (op : Op) (hop : InScope R op) (hnb : op ≠ .branch) :
+    JudgeOrGiveUp E (usersAfter (Us.getD i []) op) op (step E .SolverCacheless w i op).1 ∧
+    TInv R (usersAll Us i op) (step E .SolverCacheless w i op).2 := by
   have hs3 := clStage_ok E 3
   have hs2 := clStage_ok E 2
+  obtain ⟨h0, hd⟩ := hw.each i hi
+  have hUs : Us.set i (Us.getD i []) = Us := set_getD_self Us i [] (by rw [hw.len]; exact hi)
+  -- a query: from the marked invariant read off the step, transport the deduplication invariant
+  have query : ∀ {s' : St}, CLInv (· = stOfI w i) (Us.getD i []) s' → TInv R Us (wOfI w i s') := by
+    intro s' h'
+    obtain ⟨h1, hq⟩ := h'.unmark
+    have := tinv_step hw hi hq.toW (U' := Us.getD i []) ⟨h1, hd.qstep hq⟩
+    rwa [hUs] at this
   cases op with
   | add cs =>
-    show JudgeOrGiveUp E (U ++ cs) _ (outOf _ (runOn w 0 (publicAdd (classOps E .SolverCacheless) cs))).1 ∧
-         WInv R (U ++ cs) (outOf _ (runOn w 0 (publicAdd (classOps E .SolverCacheless) cs))).2
+    show JudgeOrGiveUp E (Us.getD i [] ++ cs) _ (outOf _ (runOn w i (publicAdd (classOps E .SolverCacheless) cs))).1 ∧
+         TInv R (Us.set i (Us.getD i [] ++ cs)) (outOf _ (runOn w i (publicAdd (classOps E .SolverCacheless) cs))).2
     rw [classOps_cacheless, publicAdd_cacheless, runOn_eq]
-    obtain ⟨h0, hd⟩ := hw.2.split
-    obtain ⟨added, s', heq, h1, h2⟩ := clAdd_spec hR hs3 U (stOf w) h0 hd cs hop true
+    obtain ⟨added, s', heq, h1, h2, hm⟩ := clAdd_spec hR hs3 (Us.getD i []) (stOfI w i) h0 hd cs hop true
     rw [heq]
-    exact ⟨Or.inl trivial, winv_step hw (FInv.join h1 h2)⟩
+    exact ⟨Or.inl trivial, tinv_step hw hi hm.toW ⟨h1, h2⟩⟩
   | satisfiable extra =>
-    show JudgeOrGiveUp E U _ (outOf .bool (runOn w 0 ((classOps E .SolverCacheless).satisfiable extra))).1 ∧
-         WInv R U (outOf .bool (runOn w 0 ((classOps E .SolverCacheless).satisfiable extra))).2
+    show JudgeOrGiveUp E (Us.getD i []) _ (outOf .bool (runOn w i ((classOps E .SolverCacheless).satisfiable extra))).1 ∧
+         TInv R Us (outOf .bool (runOn w i ((classOps E .SolverCacheless).satisfiable extra))).2
     rw [classOps_cacheless, clStage_satisfiable, runOn_eq]
-    have hspec := clSat_spec hE hs3 U (stOf w) hw.2 extra hop
-    generalize clSat E (clStage E 3) extra (stOf w) = res at hspec ⊢
+    have hspec := clSat_spec hE hs3 (Us.getD i []) (stOfI w i) h0.mark extra hop
+    generalize clSat E (clStage E 3) extra (stOfI w i) = res at hspec ⊢
     obtain ⟨r, s'⟩ := res
     cases r with
-    | ok b => exact ⟨Or.inl hspec.1, winv_step hw hspec.2⟩
-    | error e => exact ⟨Or.inr ⟨e, rfl, hspec.1⟩, winv_step hw hspec.2⟩
+    | ok b => exact ⟨Or.inl hspec.1, query hspec.2⟩
+    | error e => exact ⟨Or.inr ⟨e, rfl, hspec.1⟩, query hspec.2⟩
   | eval e n extra =>
-    show JudgeOrGiveUp E U _ (outOf .vals (runOn w 0 ((classOps E .SolverCacheless).eval e n extra))).1 ∧
-         WInv R U (outOf .vals (runOn w 0 ((classOps E .SolverCacheless).eval e n extra))).2
+    show JudgeOrGiveUp E (Us.getD i []) _ (outOf .vals (runOn w i ((classOps E .SolverCacheless).eval e n extra))).1 ∧
+         TInv R Us (outOf .vals (runOn w i ((classOps E .SolverCacheless).eval e n extra))).2
     rw [classOps_cacheless, clStage_eval, runOn_eq]
-    have hspec := clEval_spec hE hs3 U (stOf w) hw.2 e n hop.2.1 extra hop.2.2
-    generalize clEval E (clStage E 3) e n extra (stOf w) = res at hspec ⊢
+    have hspec := clEval_spec hE hs3 (Us.getD i []) (stOfI w i) h0.mark e n hop.2.1 extra hop.2.2
+    generalize clEval E (clStage E 3) e n extra (stOfI w i) = res at hspec ⊢
     obtain ⟨r, s'⟩ := res
     cases r with
-    | ok vs => exact ⟨Or.inl hspec.1, winv_step hw hspec.2⟩
+    | ok vs => exact ⟨Or.inl hspec.1, query hspec.2⟩
     | error err =>
-      refine ⟨?_, winv_step hw hspec.2⟩
+      refine ⟨?_, query hspec.2⟩
       rcases hspec.1 with ⟨rfl, hns⟩ | hg
       · exact Or.inl hns
       · exact Or.inr ⟨err, rfl, hg⟩
   | batchEval es n extra => exact hop.elim
   | min e extra signed =>
-    show JudgeOrGiveUp E U _ (outOf .int (runOn w 0 ((classOps E .SolverCacheless).min e extra signed))).1 ∧
-         WInv R U (outOf .int (runOn w 0 ((classOps E .SolverCacheless).min e extra signed))).2
+    show JudgeOrGiveUp E (Us.getD i []) _ (outOf .int (runOn w i ((classOps E .SolverCacheless).min e extra signed))).1 ∧
+         TInv R Us (outOf .int (runOn w i ((classOps E .SolverCacheless).min e extra signed))).2
     rw [classOps_cacheless, clStage_min, runOn_eq]
     dsimp only
-    have hspec := clExtremum_spec hE hs3 hs2 (clStage_satisfiable E 2) (clStage_eval E 2) U (stOf w) hw.2 false e hop.1
-      extra hop.2 signed
-    generalize clExtremum E (clStage E 3) false e extra signed (stOf w) = res at hspec ⊢
+    have hspec := clExtremum_spec hE hs3 hs2 (clStage_satisfiable E 2) (clStage_eval E 2) (Us.getD i []) (stOfI w i) h0.mark
+      false e hop.1 extra hop.2 signed
+    generalize clExtremum E (clStage E 3) false e extra signed (stOfI w i) = res at hspec ⊢
     obtain ⟨r, s'⟩ := res
     cases r with
-    | ok i => exact ⟨Or.inl hspec.1, winv_step hw hspec.2⟩
+    | ok v => exact ⟨Or.inl hspec.1, query hspec.2⟩
     | error err =>
-      refine ⟨?_, winv_step hw hspec.2⟩
+      refine ⟨?_, query hspec.2⟩
       rcases hspec.1 with ⟨rfl, hns⟩ | hg
       · exact Or.inl hns
       · exact Or.inr ⟨err, rfl, hg⟩
   | max e extra signed =>
-    show JudgeOrGiveUp E U _ (outOf .int (runOn w 0 ((classOps E .SolverCacheless).max e extra signed))).1 ∧
-         WInv R U (outOf .int (runOn w 0 ((classOps E .SolverCacheless).max e extra signed))).2
+    show JudgeOrGiveUp E (Us.getD i []) _ (outOf .int (runOn w i ((classOps E .SolverCacheless).max e extra signed))).1 ∧
+         TInv R Us (outOf .int (runOn w i ((classOps E .SolverCacheless).max e extra signed))).2
     rw [classOps_cacheless, clStage_max, runOn_eq]
     dsimp only
-    have hspec := clExtremum_spec hE hs3 hs2 (clStage_satisfiable E 2) (clStage_eval E 2) U (stOf w) hw.2 true e hop.1
-      extra hop.2 signed
-    generalize clExtremum E (clStage E 3) true e extra signed (stOf w) = res at hspec ⊢
+    have hspec := clExtremum_spec hE hs3 hs2 (clStage_satisfiable E 2) (clStage_eval E 2) (Us.getD i []) (stOfI w i) h0.mark
+      true e hop.1 extra hop.2 signed
+    generalize clExtremum E (clStage E 3) true e extra signed (stOfI w i) = res at hspec ⊢
     obtain ⟨r, s'⟩ := res
     cases r with
-    | ok i => exact ⟨Or.inl hspec.1, winv_step hw hspec.2⟩
+    | ok v => exact ⟨Or.inl hspec.1, query hspec.2⟩
     | error err =>
-      refine ⟨?_, winv_step hw hspec.2⟩
+      refine ⟨?_, query hspec.2⟩
       rcases hspec.1 with ⟨rfl, hns⟩ | hg
       · exact Or.inl hns
       · exact Or.inr ⟨err, rfl, hg⟩
   | solution e v extra =>
-    show JudgeOrGiveUp E U _ (outOf .bool (runOn w 0 ((classOps E .SolverCacheless).solution e v extra))).1 ∧
-         WInv R U (outOf .bool (runOn w 0 ((classOps E .SolverCacheless).solution e v extra))).2
+    show JudgeOrGiveUp E (Us.getD i []) _ (outOf .bool (runOn w i ((classOps E .SolverCacheless).solution e v extra))).1 ∧
+         TInv R Us (outOf .bool (runOn w i ((classOps E .SolverCacheless).solution e v extra))).2
     rw [classOps_cacheless, clStage_solution, runOn_eq]
-    have hspec := clSolution_spec hE hs3 U (stOf w) hw.2 e v hop.1 extra hop.2
-    generalize clSolution E (clStage E 3) e v extra (stOf w) = res at hspec ⊢
+    have hspec := clSolution_spec hE hs3 (Us.getD i []) (stOfI w i) h0.mark e v hop.1 extra hop.2
+    generalize clSolution E (clStage E 3) e v extra (stOfI w i) = res at hspec ⊢
     obtain ⟨r, s'⟩ := res
     cases r with
-    | ok b => exact ⟨Or.inl hspec.1, winv_step hw hspec.2⟩
+    | ok b => exact ⟨Or.inl hspec.1, query hspec.2⟩
     | error err =>
-      refine ⟨?_, winv_step hw hspec.2⟩
+      refine ⟨?_, query hspec.2⟩
       rcases hspec.1 with ⟨rfl, hns⟩ | hg
       · exact Or.inl hns
       · exact Or.inr ⟨err, rfl, hg⟩
   | isTrue c extra =>
-    show JudgeOrGiveUp E U _ (outOf .bool (runOn w 0 ((classOps E .SolverCacheless).isTrue c extra))).1 ∧
-         WInv R U (outOf .bool (runOn w 0 ((classOps E .SolverCacheless).isTrue c extra))).2
+    show JudgeOrGiveUp E (Us.getD i []) _ (outOf .bool (runOn w i ((classOps E .SolverCacheless).isTrue c extra))).1 ∧
+         TInv R Us (outOf .bool (runOn w i ((classOps E .SolverCacheless).isTrue c extra))).2
     rw [classOps_cacheless, clStage_isTrue, runOn_eq]
-    have hspec := clTruth_spec hT hs3 U (stOf w) hw.2 true c hop.1 extra hop.2
-    generalize clTruth E (clStage E 3) true c extra (stOf w) = res at hspec ⊢
+    have hspec := clTruth_spec hT hs3 (Us.getD i []) (stOfI w i) h0.mark true c hop.1 extra hop.2
+    generalize clTruth E (clStage E 3) true c extra (stOfI w i) = res at hspec ⊢
     obtain ⟨r, s'⟩ := res
     cases r with
-    | ok b => exact ⟨Or.inl hspec.1, winv_step hw hspec.2⟩
+    | ok b => exact ⟨Or.inl hspec.1, query hspec.2⟩
     | error err =>
-      refine ⟨?_, winv_step hw hspec.2⟩
+      refine ⟨?_, query hspec.2⟩
       rcases hspec.1 with ⟨rfl, hns⟩ | hg
       · exact Or.inl hns
       · exact Or.inr ⟨err, rfl, hg⟩
   | isFalse c extra =>
-    show JudgeOrGiveUp E U _ (outOf .bool (runOn w 0 ((classOps E .SolverCacheless).isFalse c extra))).1 ∧
-         WInv R U (outOf .bool (runOn w 0 ((classOps E .SolverCacheless).isFalse c extra))).2
+    show JudgeOrGiveUp E (Us.getD i []) _ (outOf .bool (runOn w i ((classOps E .SolverCacheless).isFalse c extra))).1 ∧
+         TInv R Us (outOf .bool (runOn w i ((classOps E .SolverCacheless).isFalse c extra))).2
     rw [classOps_cacheless, clStage_isFalse, runOn_eq]
-    have hspec := clTruth_spec hT hs3 U (stOf w) hw.2 false c hop.1 extra hop.2
-    generalize clTruth E (clStage E 3) false c extra (stOf w) = res at hspec ⊢
+    have hspec := clTruth_spec hT hs3 (Us.getD i []) (stOfI w i) h0.mark false c hop.1 extra hop.2
+    generalize clTruth E (clStage E 3) false c extra (stOfI w i) = res at hspec ⊢
     obtain ⟨r, s'⟩ := res
     cases r with
-    | ok b => exact ⟨Or.inl hspec.1, winv_step hw hspec.2⟩
+    | ok b => exact ⟨Or.inl hspec.1, query hspec.2⟩
     | error err =>
-      refine ⟨?_, winv_step hw hspec.2⟩
+      refine ⟨?_, query hspec.2⟩
       rcases hspec.1 with ⟨rfl, hns⟩ | hg
       · exact Or.inl hns
       · exact Or.inr ⟨err, rfl, hg⟩
   | unsatCore extra => exact hop.elim
   | simplify =>
-    show JudgeOrGiveUp E U _ (outOf _ (runOn w 0 (classOps E .SolverCacheless).simplify)).1 ∧
-         WInv R U (outOf _ (runOn w 0 (classOps E .SolverCacheless).simplify)).2
+    show JudgeOrGiveUp E (Us.getD i []) _ (outOf _ (runOn w i (classOps E .SolverCacheless).simplify)).1 ∧
+         TInv R Us (outOf _ (runOn w i (classOps E .SolverCacheless).simplify)).2
     rw [classOps_cacheless, runOn_eq, clStage_simplify]
-    obtain ⟨h0, hd⟩ := hw.2.split
-    obtain ⟨h1, h2⟩ := clSimplify_spec hR hS U (stOf w) h0 hd
-    exact ⟨Or.inl trivial, winv_step hw (FInv.join h1 h2)⟩
+    obtain ⟨h1, h2⟩ := clSimplify_spec hR hS (Us.getD i []) (stOfI w i) h0 hd
+    have := tinv_step hw hi (clSimplify_mstep E (stOfI w i)).toW (U' := Us.getD i []) ⟨h1, h2⟩
+    rw [hUs] at this
+    exact ⟨Or.inl trivial, this⟩
   | downsize =>
-    show JudgeOrGiveUp E U _ (outOf _ (runOn w 0 (classOps E .SolverCacheless).downsize)).1 ∧
-         WInv R U (outOf _ (runOn w 0 (classOps E .SolverCacheless).downsize)).2
+    show JudgeOrGiveUp E (Us.getD i []) _ (outOf _ (runOn w i (classOps E .SolverCacheless).downsize)).1 ∧
+         TInv R Us (outOf _ (runOn w i (classOps E .SolverCacheless).downsize)).2
     rw [classOps_cacheless, runOn_eq, clStage_downsize]
-    obtain ⟨h0, hd⟩ := hw.2.split
-    obtain ⟨h1, h2⟩ := clDownsize_spec (R := R) U (stOf w) h0 hd
-    exact ⟨Or.inl trivial, winv_step hw (FInv.join h1 h2)⟩
-  | branch => exact hop.elim
+    obtain ⟨h1, h2⟩ := clDownsize_spec (R := R) (Us.getD i []) (stOfI w i) h0 hd
+    have := tinv_step hw hi (clDownsize_mstep (stOfI w i)).toW (U' := Us.getD i []) ⟨h1, h2⟩
+    rw [hUs] at this
+    exact ⟨Or.inl trivial, this⟩
+  | branch => exact (hnb rfl).elim
   | pickle => exact hop.elim
 
-/-- any history of calls in scope, from any world satisfying the invariant: every answer is allowed or an honest
-give-up — in particular the answers AFTER a give-up are still right (C17) -/
-theorem cl_hist_giveup (hist : List Op) : ∀ (w : World) (U : List Con), WInv R U w → (∀ op ∈ hist, InScope R op) →
-    ∀ x ∈ runHist E .SolverCacheless w [U] (hist.map fun op => (0, op)), JudgeOrGiveUp E x.1 x.2.1 x.2.2 := by
+end
+
+theorem getD_append_left' {α : Type} (l : List α) (c d : α) (j : Nat) (h : j < l.length) : (l ++ [c]).getD j d = l.getD j d := by
+  simp [List.getD, List.getElem?_append_left h]
+
+theorem getD_append_last {α : Type} (l : List α) (c d : α) : (l ++ [c]).getD l.length d = c := by
+  simp [List.getD]
+
+/-- the copy made by `branch` joins the world: it refers to the same Z3 object as its (finalized) parent -/
+theorem tinv_append {R : Con → Prop} {Us : List (List Con)} {w : World} (hw : TInv R Us w) {i : Nat} (hi : i < w.fes.length)
+    (hfin : (w.fes.getD i {}).finalized = true) (c : Frontend)
+    (hcons : c.constraints = (w.fes.getD i {}).constraints) (htoadd : c.toAdd = (w.fes.getD i {}).toAdd)
+    (hsol : c.solver = (w.fes.getD i {}).solver) (htrack : c.track = (w.fes.getD i {}).track)
+    (hhash : c.hashes = (w.fes.getD i {}).hashes) (hwo : c.woAnnot = (w.fes.getD i {}).woAnnot) (hcfin : c.finalized = true) :
+    TInv R (Us ++ [Us.getD i []]) { w with fes := w.fes ++ [c] } := by
+  refine ⟨by simp [hw.len], ?_, ?_⟩
+  · intro j hj
+    simp only [List.length_append, List.length_singleton] at hj
+    by_cases hjl : j < w.fes.length
+    · have e1 : stOfI { w with fes := w.fes ++ [c] } j = stOfI w j := by
+        simp only [stOfI, getD_append_left' _ _ _ _ hjl]
+      rw [e1, getD_append_left' _ _ _ _ (by rw [hw.len]; exact hjl)]
+      exact hw.each j hjl
+    · have hjeq : j = w.fes.length := by omega
+      subst hjeq
+      have e2 : (Us ++ [Us.getD i []]).getD w.fes.length [] = Us.getD i [] := by
+        rw [← hw.len]; exact getD_append_last _ _ _
+      rw [e2]
+      have hfe : (stOfI { w with fes := w.fes ++ [c] } w.fes.length).fe = c := by
+        simp only [stOfI]; exact getD_append_last _ _ _
+      refine (hw.each i hi).transfer (by rw [hfe]; exact hcons) (by rw [hfe]; exact htoadd) (by rw [hfe]; exact hsol)
+        (by rw [hfe]; exact htrack) (by rw [hfe]; exact hhash) (by rw [hfe]; exact hwo) rfl ?_
+      intro r hr
+      exact ⟨hw.solver_lt hi hr, rfl⟩
+  · intro a b r ha hb hab hra hrb
+    simp only [List.length_append, List.length_singleton] at ha hb
+    simp only at hra hrb ⊢
+    by_cases hal : a < w.fes.length
+    · rw [getD_append_left' _ _ _ _ hal] at hra ⊢
+      by_cases hbl : b < w.fes.length
+      · rw [getD_append_left' _ _ _ _ hbl] at hrb
+        exact hw.share a b r hal hbl hab hra hrb
+      · have hbeq : b = w.fes.length := by omega
+        subst hbeq
+        rw [getD_append_last] at hrb
+        rw [hsol] at hrb
+        by_cases hai : a = i
+        · subst hai; exact hfin
+        · exact hw.share a i r hal hi hai hra hrb
+    · have haeq : a = w.fes.length := by omega
+      subst haeq
+      rw [getD_append_last]
+      exact hcfin
+
+/-- a history is in scope: every call is made on a solver that exists at that moment, with arguments in scope -/
+def HistOk (R : Con → Prop) : Nat → List (Nat × Op) → Prop
+  | _, [] => True
+  | n, (i, op) :: rest => i < n ∧ InScope R op ∧ HistOk R (match op with | .branch => n + 1 | _ => n) rest
+
+theorem runHist_cons (E : Env) (w : World) (Us : List (List Con)) (i : Nat) (op : Op) (rest : List (Nat × Op)) :
+    runHist E .SolverCacheless w Us ((i, op) :: rest) =
+      (usersAfter (Us.getD i []) op, op, (step E .SolverCacheless w i op).1) ::
+        runHist E .SolverCacheless (step E .SolverCacheless w i op).2 (usersAll Us i op) rest := by
+  cases op <;> rfl
+
+theorem usersAll_length (Us : List (List Con)) (i : Nat) (op : Op) :
+    (usersAll Us i op).length = (match op with | .branch => Us.length + 1 | _ => Us.length) := by
+  cases op <;> simp [usersAll]
+
+section
+variable {E : Env} {R : Con → Prop} (hR : Reg R E) (hE : OracleExact E) (hS : SimpOn R E) (hT : CheapSound E)
+
+/-- `branch` on solver `i`: a new solver with index = the number of solvers so far; the world invariant holds with the new
+solver inheriting the constraint list of its parent -/
+theorem cl_step_branch (w : World) (Us : List (List Con)) (hw : TInv R Us w) (i : Nat) (hi : i < w.fes.length) :
+    (step E .SolverCacheless w i .branch).1 = .newSolver w.fes.length ∧
+    TInv R (Us ++ [Us.getD i []]) (step E .SolverCacheless w i .branch).2 := by
+  obtain ⟨c, hrun, hcons, htoadd, hsol, htrack, hhash, hwo, hcfin⟩ := branchM_spec E (stOfI w i)
+  have hstep : step E .SolverCacheless w i .branch =
+      (match runOn w i (branchM E) with
+       | (.ok c, w') => (.newSolver w'.fes.length, { w' with fes := w'.fes ++ [c] })
+       | (.error e, w') => (.err e, w')) := rfl
+  rw [hstep, runOn_eq, hrun]
+  simp only
+  -- the parent, now finalized
+  have hf1 : FInv R (Us.getD i []) { stOfI w i with fe := { (stOfI w i).fe with finalized := true } } :=
+    (hw.each i hi).transfer rfl rfl rfl rfl rfl rfl rfl (fun r hr => ⟨hw.solver_lt hi hr, rfl⟩)
+  have hws : WStep (stOfI w i) { stOfI w i with fe := { (stOfI w i).fe with finalized := true } } :=
+    ⟨Nat.le_refl _, Or.inl rfl, fun _ _ _ => rfl, rfl, fun _ => rfl⟩
+  have hw1 := tinv_step hw hi hws hf1
+  rw [set_getD_self Us i [] (by rw [hw.len]; exact hi)] at hw1
+  have hlen1 : (wOfI w i { stOfI w i with fe := { (stOfI w i).fe with finalized := true } }).fes.length = w.fes.length := by
+    simp [wOfI]
+  have hi1 : i < (wOfI w i { stOfI w i with fe := { (stOfI w i).fe with finalized := true } }).fes.length := by
+    rw [hlen1]; exact hi
+  have hfe1 : (wOfI w i { stOfI w i with fe := { (stOfI w i).fe with finalized := true } }).fes.getD i {} =
+      { (stOfI w i).fe with finalized := true } := by
+    simp only [wOfI]; exact getD_set_self _ _ _ _ hi
+  refine ⟨by rw [hlen1], ?_⟩
+  exact tinv_append hw1 hi1 (by rw [hfe1]) c (by rw [hfe1]; exact hcons) (by rw [hfe1]; exact htoadd)
+    (by rw [hfe1]; exact hsol) (by rw [hfe1]; exact htrack) (by rw [hfe1]; exact hhash) (by rw [hfe1]; exact hwo) hcfin
+
+include hR hE hS hT
+
+/-- any call in scope on any solver alive -/
+theorem cl_step (w : World) (Us : List (List Con)) (hw : TInv R Us w) (i : Nat) (hi : i < w.fes.length)
+    (op : Op) (hop : InScope R op) :
+    JudgeOrGiveUp E (usersAfter (Us.getD i []) op) op (step E .SolverCacheless w i op).1 ∧
+    TInv R (usersAll Us i op) (step E .SolverCacheless w i op).2 := by
+  by_cases hb : op = .branch
+  · subst hb
+    obtain ⟨h1, h2⟩ := cl_step_branch (E := E) w Us hw i hi
+    refine ⟨Or.inl ?_, h2⟩
+    rw [h1]
+    trivial
+  · exact cl_step_nb hR hE hS hT w Us hw i hi op hop hb
+
+/-- **trees of branched solvers**: every answer of every solver is allowed for that solver's own constraints, or is an
+honest give-up -/
+theorem cl_hist_giveup (hist : List (Nat × Op)) : ∀ (w : World) (Us : List (List Con)), TInv R Us w →
+    HistOk R w.fes.length hist →
+    ∀ x ∈ runHist E .SolverCacheless w Us hist, JudgeOrGiveUp E x.1 x.2.1 x.2.2 := by
   induction hist with
-  | nil => intro w U _ _ x hx; simp [runHist] at hx
-  | cons op rest ih =>
-    intro w U hw hops x hx
-    have hop := hops op (List.mem_cons_self ..)
-    obtain ⟨hj, hw'⟩ := cl_step hR hE hS hT w U hw op hop
-    rw [List.map_cons, runHist_cons E w U op _ hop] at hx
+  | nil => intro w Us _ _ x hx; simp [runHist] at hx
+  | cons io rest ih =>
+    obtain ⟨i, op⟩ := io
+    intro w Us hw hok x hx
+    obtain ⟨hi, hop, hrest⟩ := hok
+    obtain ⟨hj, hw'⟩ := cl_step hR hE hS hT w Us hw i hi op hop
+    rw [runHist_cons] at hx
     rcases List.mem_cons.mp hx with rfl | hx
     · exact hj
-    · exact ih _ _ hw' (fun o ho => hops o (List.mem_cons_of_mem _ ho)) x hx
+    · refine ih _ _ hw' ?_ x hx
+      have hl := hw'.len
+      rw [usersAll_length, hw.len] at hl
+      rw [← hl]
+      exact hrest
 
 /-- every answer other than a give-up error is allowed -/
-theorem cl_hist (hist : List Op) (w : World) (U : List Con) (hw : WInv R U w) (hops : ∀ op ∈ hist, InScope R op) :
-    ∀ x ∈ runHist E .SolverCacheless w [U] (hist.map fun op => (0, op)), x.2.2 ≠ .err .giveUp → Judge x.1 x.2.1 x.2.2 := by
+theorem cl_hist (hist : List (Nat × Op)) (w : World) (Us : List (List Con)) (hw : TInv R Us w)
+    (hok : HistOk R w.fes.length hist) :
+    ∀ x ∈ runHist E .SolverCacheless w Us hist, x.2.2 ≠ .err .giveUp → Judge x.1 x.2.1 x.2.2 := by
   intro x hx hne
-  rcases cl_hist_giveup hR hE hS hT hist w U hw hops x hx with h | hg
+  rcases cl_hist_giveup hR hE hS hT hist w Us hw hok x hx with h | hg
   · exact h
   · exact (hne hg.eq).elim
 
